@@ -3,6 +3,24 @@
 COMMON = "Trusted: the harness's mini API server and event loop reproduce what the reconcilers see (list order chosen by the case, work-queue coalescing, status update = status + annotations, followed by a service event); its reference oracles (pool arithmetic, admission, sharing rule) are written from the property text and the user documentation. Kubernetes admission invariants (>=1 port, families consistent with the policy, immutable primary family) are assumed."
 
 TEXT = {
+    "C13": {
+        "level": "Exploration: (1) generated histories of announce / re-announce with another interface set / withdraw / ARP packets (request or reply x destination x target x interface) / replay of the unsolicited-announcement queue, against the real Announce and real arpResponders over an in-memory packet connection, judged by a reference model after every operation (reply iff announced and covered, reference counts, gratuitous frames); (2) concurrent runs under the race detector: requester goroutines against the real responder loop while an updater toggles and re-scopes a co-tenant.",
+        "design_ref": "DESIGN.md section 14",
+        "note": "Trusted: the in-memory PacketConn and the ethernet/arp library's decoder. NOT reached: the NDP packet path (ndp.Conn needs a raw ICMPv6 socket); it shares shouldAnnounce and the reference counting, which are covered. Interleavings of the concurrent engine are sampled by the Go scheduler.",
+        "technique": "stateful property-based testing against a reference model + race-detector runs of generated concurrent workloads (rapid, -race)",
+    },
+    "C14": {
+        "level": "Exploration: generated session sets and advertisement sets go through the real sessionManager (NewSession/Set/Close), createConfig and templateConfig; the produced text is parsed and evaluated by the harness's interpreter of FRR's network / route-map / prefix-list semantics: per neighbor the offered prefixes with local preference and communities must equal the requested ones, inbound everything is rejected, routers originate the union, session parameters sit on the right neighbor, and the text is identical under creation order, advertisement order and close/re-create churn.",
+        "design_ref": "DESIGN.md section 15",
+        "note": "Trusted: the interpreter's reading of FRR semantics (documented in its header); unknown constructs make the run inconclusive (exit 2). Sessions satisfy what the configuration layer guarantees in FRR mode; disableMP is not combined with unnumbered peers.",
+        "technique": "property-based testing: interpretation of the generated artefact vs the request (rapid)",
+    },
+    "C15": {
+        "level": "Exploration: the same generated sessions through the real frr-k8s session manager; the captured FRRConfiguration is judged field by field against the frr-k8s API reading (allowed prefixes sorted/unique, community and local-preference associations exact, router prefixes = union, node selector = this node, session parameters, password xor secret) and differentially against the routes the FRR-mode text offers for the same sessions; passwordForSession is checked over all backend / secret-handling combinations.",
+        "design_ref": "DESIGN.md section 16",
+        "note": "Trusted: the C14 interpreter (for the differential) and the API reading. One genuine defect (source address dropped) is a known finding, excluded by signature.",
+        "technique": "property-based testing: API-level interpretation + differential against the other backend (rapid)",
+    },
     "C05": {
         "level": "Exploration: generated speaker histories (services, addresses, endpoint slices, node labels/conditions, configuration with peers/advertisements/aggregation/communities/peer lists, membership) through the real reconcilers, Listener, speaker controller and BGP controller over a recording session manager; at every quiescence the last Set on every live session and PeersForService are compared, as sets, with a closed form computed from the CRs.",
         "design_ref": "DESIGN.md section 6",
@@ -84,9 +102,6 @@ TEXT = {
 }
 
 NOT_APPLICABLE = {
-    "C13": "check not built yet (work in progress; see DESIGN.md for the planned generated-input check)",
-    "C14": "check not built yet (work in progress; see DESIGN.md for the planned generated-input check)",
-    "C15": "check not built yet (work in progress; see DESIGN.md for the planned generated-input check)",
     "C17": "check not built yet (work in progress; see DESIGN.md for the planned generated-input check)",
     "C19": "check not built yet (work in progress; see DESIGN.md for the planned generated-input check)",
     "C20": "check not built yet (work in progress; see DESIGN.md for the planned generated-input check)"
